@@ -33,6 +33,10 @@ type vfSrvCfg struct {
 	StartDir string
 	MaxTx    uint32
 	H        Handlers
+	// AllocOpt, AllocOptRS: option VALUES to use for the allocator instead of fresh WithAllocator() /
+	// WithRSAllocator() calls (an embedder builds its option list once and applies it to every connection)
+	AllocOpt   ServerOption
+	AllocOptRS RequestServerOption
 }
 
 func (c vfSrvCfg) String() string {
@@ -54,7 +58,9 @@ func vfServe(cfg vfSrvCfg, e *vfEnd) (*vfSrv, error) {
 	switch cfg.Kind {
 	case vfOS:
 		var opts []ServerOption
-		if cfg.Alloc {
+		if cfg.Alloc && cfg.AllocOpt != nil {
+			opts = append(opts, cfg.AllocOpt)
+		} else if cfg.Alloc {
 			opts = append(opts, WithAllocator())
 		}
 		if cfg.ReadOnly {
@@ -77,7 +83,9 @@ func vfServe(cfg vfSrvCfg, e *vfEnd) (*vfSrv, error) {
 		}()
 	case vfRS:
 		var opts []RequestServerOption
-		if cfg.Alloc {
+		if cfg.Alloc && cfg.AllocOptRS != nil {
+			opts = append(opts, cfg.AllocOptRS)
+		} else if cfg.Alloc {
 			opts = append(opts, WithRSAllocator())
 		}
 		if cfg.StartDir != "" {
